@@ -1,4 +1,5 @@
-import Sentinel.Lemmas.ChainSim
+import Sentinel.Lemmas.ChainExtra
+import Sentinel.Drv.C16
 /-!
 # C16 — Slot chain runs in order, short-circuits on first block, and fails open
 (property theorems only; helper lemmas live in `Sentinel/Lemmas/Chain.lean`)
@@ -455,5 +456,92 @@ theorem clock_irrelevant (ops : List Op) (s : State) :
 example : ∃ s' : SState, s'.hazard "e1" = true :=
   ⟨{ chains := [("A", [.r { id := 1, order := 0, beh := .block .own 3 }])],
      entries := [{ name := "e2", chain := "A", blockPanic := true, panicked := true }] }, by decide⟩
+
+
+/-! ## 9. pass-through rule slots and the own-result hazard (notes/C16.md, observation 5)
+
+The built-in rule slots return `ctx.RuleCheckResult` untouched when they have nothing to limit.  `XSlot.thru` models that
+behaviour in an extension (`runRulesX`, `apiEntryWith` in `Sentinel/Lemmas/ChainExtra.lean`) that the driver does **not** run.
+`SState.entryHazard s'` is the decidable hazard region: some rule slot of the case re-arms one shared result object **and** an
+entry admitted by a panic after a block has not exited yet. -/
+
+/-- (a) outside the hazard, in every reachable state, an entry on **any** chain — also one whose rule slots hand the pooled result
+    back untouched, like api's global chain `*` — is exactly the entry on the same chain with those slots returning nil: it is
+    decided by its own chain's slots only (heap, call log and verdict coincide; `verdict_matches_spec` then gives the verdict) -/
+theorem entry_decided_by_own_chain (pre : List Op) (ps : List PSlot) (xs : List XSlot) (ss : List SSlot)
+    (hz : (srunOps {} pre).entryHazard = false) :
+    apiEntryWith (fun c h => runRulesX c xs h) { ps := ps, rs := xs.map XSlot.toStd, ss := ss } (runOps {} pre).h =
+      apiEntry { ps := ps, rs := xs.map XSlot.toStd, ss := ss } (runOps {} pre).h := by
+  rw [← apiEntryWith_std]
+  apply apiEntryWith_congr
+  exact runRulesX_clean _ xs _ ((reachable_sim pre).pool_clean hz)
+
+theorem entry_decided_by_own_chain_verdict (pre : List Op) (ps : List PSlot) (xs : List XSlot) (ss : List SSlot)
+    (hz : (srunOps {} pre).entryHazard = false) :
+    (apiEntryWith (fun c h => runRulesX c xs h) { ps := ps, rs := xs.map XSlot.toStd, ss := ss } (runOps {} pre).h).2.2.verdict =
+      specVerdict { ps := ps, rs := xs.map XSlot.toStd, ss := ss } := by
+  rw [entry_decided_by_own_chain pre ps xs ss hz]
+  exact verdict_matches_spec _ _
+
+/-- the history of the witness: chain `B` = an own-result blocker (id 32) + a stat slot panicking in `OnEntryBlocked`; two
+    admitted entries leave two pooled contexts pointing at the slot's result object; `e9` is admitted the same way and leaves that
+    object marked blocked -/
+def hazardOps : List Op :=
+  [.chain "B" [.r { id := 32, order := 0, beh := .block .own 2 }, .s { id := 76, order := 0, beh := .pBlocked }],
+   .entry "e5" "B", .entry "e6" "B", .exit "e5", .exit "e6", .entry "e9" "B"]
+
+/-- api's global chain as the harness sees it, with the built-in slots' pass-through made explicit -/
+def globalX : List XSlot := [.thru 0]
+def globalCh : ChainDef :=
+  { ps := [{ id := 0, order := 0, beh := .ok }], rs := globalX.map XSlot.toStd, ss := [{ id := 0, order := 0, beh := .ok }] }
+
+/-- (b) inside the hazard the pass-through slot turns the stale result into a block: the unrelated request on the global chain
+    is refused with slot 32's block error, while on its own slots it passes — the situation the generator keeps `*` entries out of -/
+theorem passthrough_hazard_witness :
+    (apiEntryWith (fun c h => runRulesX c globalX h) globalCh (runOps {} hazardOps).h).2.2.verdict =
+      some { typ := 2, msg := some 32, rule := some 32, snap := some 0 } ∧
+    (apiEntry globalCh (runOps {} hazardOps).h).2.2.verdict = none := by
+  decide
+
+/-- … and that history is inside the hazard region: chain `B` re-arms a slot-owned result and admits by a panic after a block
+    (`e9` is such an entry and has not exited) -/
+theorem passthrough_hazard_in_region :
+    blockPanics { rs := [{ id := 32, order := 0, beh := .block .own 2 }], ss := [{ id := 76, order := 0, beh := .pBlocked }] } = true ∧
+    RB.needsOwn (.block .own 2) = true ∧
+    (findEntry (runOps {} hazardOps) "e9").map (fun r => (r.exited, r.blockAt)) = some (false, none) := by
+  decide
+
+/-! ## 10. two `Exit` calls on one entry = one `Exit` and a no-op (`exit2` in the op language)
+
+The interpreter's `exit2` runs two overlapping `Exit` calls; `sync.Once` serialises them, so the model (the driver maps `exit2`
+to `exit`) has to say that the second call does nothing. -/
+
+/-- `exit (exit s e) e = exit s e` up to the call log, which the second call leaves empty: same answer, same heap — hence same
+    pool: the context is handed back once and keeps its identity for the next entry —, same entries, chains and context notes;
+    no exit handler and no statistic slot is called a second time -/
+theorem exit_idempotent (s : State) (e : String) :
+    (stepExit (stepExit s e).1 e).2 = (stepExit s e).2 ∧
+    (stepExit (stepExit s e).1 e).1.h = (stepExit s e).1.h ∧
+    (stepExit (stepExit s e).1 e).1.entries = (stepExit s e).1.entries ∧
+    (stepExit (stepExit s e).1 e).1.chains = (stepExit s e).1.chains ∧
+    (stepExit (stepExit s e).1 e).1.cnote = (stepExit s e).1.cnote ∧
+    ((stepExit s e).2 = .ok → (stepExit (stepExit s e).1 e).1.lastLog = []) ∧
+    ((stepExit s e).2 = .bad → (stepExit (stepExit s e).1 e).1 = s) :=
+  stepExit_idem s e
+
+/-- consequently the next context the pool hands out is the same with one or two `Exit` calls -/
+theorem exit_twice_same_pool (s : State) (e : String) :
+    poolGet (stepExit (stepExit s e).1 e).1.h = poolGet (stepExit s e).1.h := by
+  rw [(exit_idempotent s e).2.1]
+
+/-! ## 11. the global-chain preamble changes nothing on the other chains -/
+
+example : preamble = Sentinel.Drv.C16.globalChainOp := rfl
+
+/-- both drivers start every case with `chain * p:0:0:ok r:0:0:nil s:0:0:ok`; for every op sequence that does not name `*`
+    (no `chain *`, `add *`, `entry _ *`) all answers are the same with and without that preamble -/
+theorem preamble_transparent (ops : List Op) (ha : ∀ o ∈ ops, avoidsStar o = true) :
+    runOuts (step {} preamble).1 ops = runOuts {} ops :=
+  runOuts_starExt ops preamble_starExt ha
 
 end Sentinel.C16
